@@ -36,8 +36,8 @@ LEVEL_NOTE = ("csv tokenisation (incl. quoted fields that contain line breaks), 
               "are MODELLED (Model/CatalogText.lean, Model/CatalogStream.lean, Model/DecimalText.lean) for ASCII text and compared "
               "with Python on every file and on separate token / record / text / time-string streams; non-ASCII digits, inf / nan "
               "words and the sign of a zero are outside the model. The CSEPCatalog constructor (tuples -> structured array with "
-              "an 'S256' id column) is not modelled: event ids are ASCII and at most 256 bytes in the generated files (see "
-              "EXCLUDED_INPUT_CLASSES). The harness also checks the parsed values against the generating events exactly.")
+              "an 'S256' id column) is not modelled; non-ASCII ids (D45) and ids longer than 256 bytes (D46) are known findings, "
+              "generated on ~3 % of the files and matched by their exact outcome. The harness also checks the parsed values against the generating events exactly.")
 DESIGN_REF = "DESIGN.md §4 C12"
 TECHNIQUE = "exact-layer state-machine model + induction over the encoded catalogs; exhaustive-small and random correspondence"
 
@@ -59,14 +59,10 @@ THEOREMS = ["AsciiCatalogs.decode_encode", "AsciiCatalogs.decode_encode_length",
             "AsciiCatalogs.splitLinesT_fst", "AsciiCatalogs.csvML_of_lines", "AsciiCatalogs.csvRecordsML_eq",
             "AsciiCatalogs.decodeTextML_eq_decodeText", "AsciiCatalogs.decodeTextML_encode",
             "AsciiCatalogs.decodeTextML_encode_records", "AsciiCatalogs.ses_reaches_decoder_iff",
-            "AsciiCatalogs.cf_builds_forecast_iff"]
-# input classes on which the UNCHANGED code does not return the written event id, kept out of the generators (see notes/C12.md,
-# "Genuine-defect candidates")
-EXCLUDED_INPUT_CLASSES = [
-    "event ids with non-ASCII characters: the CSEPCatalog constructor stores ids in an 'S256' column; numpy encodes str -> bytes "
-    "as ASCII and raises UnicodeEncodeError for the whole catalog",
-    "event ids longer than 256 bytes: silently truncated to 256 bytes by the 'S256' column",
-]
+            "AsciiCatalogs.cf_builds_forecast_iff", "AsciiCatalogs.takeFrac_digits", "AsciiCatalogs.takeFrac_scales"]
+# (the two id classes on which the unchanged code does not return the written event id — non-ASCII ids, ids longer than 256
+# bytes — are known findings D45 / D46: generated on ~3 % of the files and reported as KNOWN-FINDING, see SIG_D45 / SIG_D46)
+EXCLUDED_INPUT_CLASSES = []
 TRUSTED = ["Lean 4.33 kernel", "axioms: propext, Classical.choice, Quot.sound at most",
            "csv.reader tokenisation, float(), int() and datetime.strptime are modelled (decodeText) and compared with Python on "
            "every run; the CSEPCatalog constructor (list of tuples -> structured array) is not modelled; the harness compares "
@@ -100,7 +96,11 @@ RULE = ("exhaustive: every forecast of n <= 5 catalogs with 0..2 events each x e
         "the file and a prefix of what the model's lazy consumer receives (c12_stream; an eager validation is as good); event "
         "ids with line breaks (LF, CRLF, CR, consecutive, next to quotes and commas: records that span physical lines); 200 "
         "random multi-line texts against csv.reader (c12_csvml); 120 option combinations of load_stochastic_event_sets (type x "
-        "format) and load_catalog_forecast (existence x loader kind x format x type) against sesDispatch / cfDispatch. A case "
+        "format) and load_catalog_forecast (existence x loader kind x format x type) against sesDispatch / cfDispatch. Round 5: "
+        "origin times with fractions of EVERY length 1..6 (padded and unpadded clock fields); ~3 % of the well-formed files carry "
+        "1..3 event ids of a known-finding class (non-ASCII: D45, longer than 256 bytes: D46) and are matched by their exact "
+        "outcome (UnicodeEncodeError / everything right but the ids cut at 256 bytes), anything else is a violation; 1 % of all "
+        "ids are ASCII ids of 129 / 200 / 255 / 256 bytes that must arrive unchanged. A case "
         "is non-trivial when the file has >= 2 catalogs and at least one empty catalog or is a rejection case; distinct by "
         "the sha1 of the file text")
 
@@ -162,7 +162,7 @@ def _time(rng):
                            ("1970-1-1T0:0:0", 0), ("1970-01-01T00:00:00.0", 0), ("1969-12-31T23:59:59.999", -1),
                            ("1969-12-31T23:59:59.999999", -1), ("1970-01-01T00:00:00.001", 1), ("1970-01-01T00:00:01", 1000)])
     us = rng.randrange(_T_LO, _T_HI)
-    style = rng.choice(["f6", "f6ms", "f3", "f1", "f2", "none", "unpadded"])
+    style = rng.choice(["f6", "f6ms", "f3", "f1", "f2", "f4", "f5", "none", "unpadded", "unpadded-frac"])
     if style == "f6ms":
         us -= us % 1000
     elif style == "f3":
@@ -171,8 +171,16 @@ def _time(rng):
         us -= us % 10000
     elif style == "f1":
         us -= us % 100000
+    elif style == "f4":
+        us -= us % 100          # four digits: tenths of a millisecond (the epoch value is the floor to ms)
+    elif style == "f5":
+        us -= us % 10
     elif style in ("none", "unpadded"):
         us -= us % 1000000
+    nfrac = None
+    if style == "unpadded-frac":
+        nfrac = rng.randint(1, 6)   # unpadded clock fields AND a fraction of 1..6 digits
+        us -= us % 10 ** (6 - nfrac)
     dt = EPOCH + datetime.timedelta(microseconds=us)
     base = f"{dt.year:04d}-{dt.month:02d}-{dt.day:02d}T{dt.hour:02d}:{dt.minute:02d}:{dt.second:02d}"
     fr = f"{dt.microsecond:06d}"
@@ -184,6 +192,12 @@ def _time(rng):
         s = base + "." + fr[:2]
     elif style == "f1":
         s = base + "." + fr[:1]
+    elif style == "f4":
+        s = base + "." + fr[:4]
+    elif style == "f5":
+        s = base + "." + fr[:5]
+    elif style == "unpadded-frac":
+        s = f"{dt.year:04d}-{dt.month}-{dt.day}T{dt.hour}:{dt.minute}:{dt.second}." + fr[:nfrac]
     elif style == "none":
         s = base
     else:
@@ -200,6 +214,35 @@ SPECIAL_IDS = ["ci38457511,us7000abcd", 'the "big" one', ",", '"', '""', " ", "a
                "us7000abcd,ci38457511,nc73649170", "it's", "0,0,0,0,0,0,0", ',,,,,3,',
                # ids that contain a line break: csv writes them as quoted fields that span physical lines
                "a\nb", "line1\r\nline2", "\n", "x\n", "\ny", '"\n"', "a\rb", "two\n\nbreaks", ",\n,", "1,2\n3,4,5,6,7,8,9"]
+
+
+# known findings D45 / D46 (known_findings.json): the id column of CSEPCatalog is 'S256'
+SIG_D45 = "event-id:non-ascii:UnicodeEncodeError"
+SIG_D46 = "event-id:longer-than-256-bytes:truncated"
+NONASCII_IDS = ["\u00e9", "\u65e5\u672c", "us7000abcd\u20132", "\u03a9mega", "na\u00efve", "ci\u00a0123", "\u00df", "x" + "\u00e9" * 10,
+                "\U0001f642", "evento-n\u00ba-7", "\u00e9" * 200]
+LONG_ID_LENGTHS = [257, 258, 300, 1000]
+LEGAL_LONG_ID_LENGTHS = [129, 200, 255, 256]      # at most 256 bytes: must arrive unchanged
+
+
+def _ascii_id(rng, n):
+    return "".join(rng.choice(_IDCH) for _ in range(n))
+
+
+def _apply_idclass(rng, spec):
+    """a file of one of the two known-finding classes: 1..3 of its events get a non-ASCII id / an id longer than 256 bytes"""
+    evs = [e for c in spec["cats"] for e in c]
+    kind = spec.get("idclass")
+    if not kind or not evs:
+        spec["idclass"] = None
+        return spec
+    for e in rng.sample(evs, min(len(evs), rng.randint(1, 3))):
+        e[6] = rng.choice(NONASCII_IDS) if kind == "nonascii" else _ascii_id(rng, rng.choice(LONG_ID_LENGTHS))
+    return spec
+
+
+def _trunc256(eid):
+    return eid.encode("utf-8")[:256].decode("utf-8", "ignore")
 
 
 def _spell(rng, x):
@@ -235,6 +278,8 @@ def _event_id(rng, k):
     r = rng.random()
     if r < 0.12:
         return ""
+    if r < 0.13:
+        return _ascii_id(rng, rng.choice(LEGAL_LONG_ID_LENGTHS))      # long, but within the 256 bytes of the id column
     if r < 0.5:
         return str(k)
     if r < 0.75:
@@ -339,7 +384,7 @@ def _canon_loaded(catalogs):
             a = c.catalog
             for row in a:
                 eid = row["id"]
-                eid = eid.decode("utf-8") if isinstance(eid, bytes) else str(eid)
+                eid = eid.decode("utf-8", "ignore") if isinstance(eid, bytes) else str(eid)   # (an id cut inside a character: D46)
                 evs.append("~".join([_mid(eid), str(int(row["origin_time"])), frac(row["latitude"]), frac(row["longitude"]),
                                      frac(row["depth"]), frac(row["magnitude"])]))
         cid = c.catalog_id
@@ -457,6 +502,8 @@ def check_case(ctx, spec, tag, loaders=LOADERS):
     run.case(case, case["sha1"] if nontrivial else None)
     run.count("reject" if expected is None else ("with-empty" if n_empty else "all-present"))
     run.count("tz:" + str(zone))
+    if spec.get("idclass"):
+        run.count("file with event ids of class: " + spec["idclass"])
     if any(len({tuple(e) for e in c}) < len(c) for c in spec["cats"]):
         run.count("catalog with events identical in all six fields")
     if spec.get("quoting", "minimal") != "minimal" or eol != "\n":
@@ -529,8 +576,20 @@ def check_case(ctx, spec, tag, loaders=LOADERS):
             else:
                 run.oracle_failure(full_case, f"{which}: a file with decreasing catalog ids was accepted: {got[:300]}")
         elif got != want:
+            ids_ = [e[6] for c in spec["cats"] for e in c]
+            nonascii = any(ord(ch) > 127 for i_ in ids_ for ch in i_)
+            toolong = any(len(i_.encode("utf-8")) > 256 for i_ in ids_)
+            sig = None
+            if nonascii and got == "err:UnicodeEncodeError":
+                sig = SIG_D45        # D45: the whole catalog is refused (known finding; any OTHER outcome is a violation)
+            elif toolong and got == _canon_expected(
+                    [[i, [[_trunc256(e[6]), e[4], e[1], e[0], e[5], e[2]] for e in c]] for i, c in enumerate(spec["cats"])]):
+                sig = SIG_D46        # D46: everything right except that ids are cut at 256 bytes
+            if sig:
+                run.count("known-finding class: " + sig)
+                outs[which] = "known"
             run.oracle_failure(full_case, f"{which}: loaded catalogs differ from the encoded ones: got {got[:400]} "
-                                          f"expected {want[:400]}")
+                                          f"expected {want[:400]}", signature=sig)
     if spec.get("fname"):
         _file_meta(ctx, path, spec)
     os.unlink(path)
@@ -569,7 +628,7 @@ def flush(ctx):
         mtext = ("ok:" + ("" if cats == "-" else cats)) if end == "end" else (end if end.startswith("err:") else "bad:" + out[it][:80])
         for tag, m in (("rows", out[i]), ("text", mtext)):
             for which, got in outs.items():
-                if got == "tolerated":
+                if got in ("tolerated", "known"):
                     continue
                 same = (got == m) if m.startswith("ok:") else got.startswith("err:")
                 if not same:
@@ -781,12 +840,17 @@ def _exhaustive(ctx, rng, nmax):
                     _repeat_events(rng, cats)
                     spec = dict(cats=cats, choices=choices, header=header, header_case=rng.randrange(2),
                                 trailing_newline=rng.random() < 0.5, **_dialect(rng, count))
+                    if rng.random() < 0.02:
+                        spec["idclass"] = rng.choice(["nonascii", "long"])
+                        _apply_idclass(rng, spec)
                     check_case(ctx, spec, f"exhaustive-n{n}")
                     count += 1
     return count
 
 
-def _random_forecast(rng, big):
+def _random_forecast(rng, big, idclass_ok=False):
+    # (idclass_ok: the file may carry ids of the known-finding classes D45 / D46; off by default — harness/src_tie_sm.py uses
+    # this generator for the executable source tie, whose model has no id column)
     n = rng.randint(100, 600) if big else rng.randint(1, 40)
     cats, choices = [], []
     i = 0
@@ -809,8 +873,12 @@ def _random_forecast(rng, big):
             choices.append(rng.random() < 0.5)
             i += m
     _repeat_events(rng, cats)
-    return dict(cats=cats, choices=choices, header=rng.random() < 0.5, header_case=rng.randrange(2),
+    spec = dict(cats=cats, choices=choices, header=rng.random() < 0.5, header_case=rng.randrange(2),
                 trailing_newline=rng.random() < 0.5, **_dialect(rng, rng.randrange(len(ZONES))))
+    if idclass_ok and rng.random() < 0.04:
+        spec["idclass"] = rng.choice(["nonascii", "long"])
+        _apply_idclass(rng, spec)
+    return spec
 
 
 def _mutate(rng, spec):
@@ -860,16 +928,16 @@ def run(run, rng, tier):
         flush(ctx)
         n_small, n_big, n_mut = (400, 40, 300) if tier == "quick" else (5000, 500, 4000)
         for _ in range(n_small):
-            check_case(ctx, _random_forecast(rng, False), "random-small")
+            check_case(ctx, _random_forecast(rng, False, idclass_ok=True), "random-small")
         flush(ctx)
         for k in range(n_big):
-            check_case(ctx, _random_forecast(rng, True), "random-big")
+            check_case(ctx, _random_forecast(rng, True, idclass_ok=True), "random-big")
             if k % 10 == 9:
                 flush(ctx)
         flush(ctx)
         done = 0
         while done < n_mut:
-            sp = _mutate(rng, _random_forecast(rng, rng.random() < 0.03))
+            sp = _mutate(rng, _random_forecast(rng, rng.random() < 0.03, idclass_ok=False))
             if sp is None:
                 continue
             check_case(ctx, sp, "malformed")
